@@ -42,6 +42,7 @@ func main() {
 		harnessF  = flag.String("harness", "", "comma-separated harness .go files (injected into -pkg)")
 		vhStub    = flag.String("vh", "/verif/vh/stub/vh.go", "vh stub source")
 		runRe     = flag.String("run", "^VH_", "regexp of harness functions")
+		skipRe    = flag.String("skip", "", "regexp of harness functions to skip")
 		params    = flag.String("p", "", "params k=v,k=v")
 		out       = flag.String("out", "", "output json")
 		jobs      = flag.Int("j", 8, "workers")
@@ -55,7 +56,15 @@ func main() {
 		goBin     = flag.String("gobin", "/opt/veriftools/go1.26.8/bin", "directory of the go tool used for loading")
 		budgetS   = flag.Int("budget", 0, "wall-clock budget in seconds for the whole run (0 = none)")
 	)
+	inject := flag.String("inject", "", "extra overlay files: pkgdir=file,pkgdir=file")
+	genOut := flag.String("gencodecs", "", "generate codec harness file for -pkg and exit")
+	genSkip := flag.String("genskip", "", "comma-separated ids to skip in generation")
+	genSupport := flag.String("gensupport", "", "hand-written support file (normalisers/shapers)")
 	flag.Parse()
+	if *genOut != "" {
+		genCodecs(*repo, *pkgFlag, *genOut, *genSkip, *genSupport)
+		return
+	}
 	t0 := time.Now()
 	pm := map[string]int{}
 	if *params != "" {
@@ -82,6 +91,15 @@ func main() {
 			fatal("read harness: %v", err)
 		}
 		overlay[filepath.Join(*repo, *pkgFlag, "zz_vh_"+filepath.Base(h))] = src
+	}
+	for _, kv := range strings.Split(*inject, ",") {
+		if p := strings.SplitN(kv, "=", 2); len(p) == 2 {
+			src, err := os.ReadFile(p[1])
+			if err != nil {
+				fatal("read inject: %v", err)
+			}
+			overlay[filepath.Join(*repo, p[0], "zz_vh_"+filepath.Base(p[1]))] = src
+		}
 	}
 	os.Setenv("PATH", *goBin+":"+os.Getenv("PATH"))
 	cfg := &packages.Config{
@@ -113,6 +131,10 @@ func main() {
 		fmt.Fprintf(os.Stderr, "loaded+built in %.1fs\n", loadS)
 	}
 	re := regexp.MustCompile(*runRe)
+	var skipR *regexp.Regexp
+	if *skipRe != "" {
+		skipR = regexp.MustCompile(*skipRe)
+	}
 	var fns []*ssa.Function
 	var pkgNames []string
 	for _, sp := range spkgs {
@@ -122,7 +144,7 @@ func main() {
 		pkgNames = append(pkgNames, sp.Pkg.Path())
 		var names []string
 		for n, m := range sp.Members {
-			if f, ok := m.(*ssa.Function); ok && strings.HasPrefix(n, "VH_") && re.MatchString(n) {
+			if f, ok := m.(*ssa.Function); ok && strings.HasPrefix(n, "VH_") && re.MatchString(n) && (skipR == nil || !skipR.MatchString(n)) {
 				names = append(names, f.Name())
 			}
 		}
